@@ -174,8 +174,24 @@ func cmdPerms(args []string) int {
 	}}}
 	directed3Paths := []string{"Wallet1/Account 1", "Wallet1/Account x", "Wallet1/Account 12", "Wallet1/Account xy", "Wallet2/Account 1", "Wallet2/Account x",
 		"Wallet /Account 1", "Wallet_/Account 1", "Wallet2/Account  1", "Wallet2/Acc 7"}
+	// ... and the order of decisions: a denial of the operation in an earlier entry, or earlier in the same entry,
+	// stands whatever follows
+	directed4 := &permConfig{Clients: []string{"client1", "client2"}, Entries: map[string][]permEntry{
+		"client1": {
+			{W: &Pat{Top: []*rnode{litSeq("Wallet1")}}, A: &Pat{Empty: true}, Ops: []string{"~Sign"}},
+			{W: &Pat{Top: []*rnode{litSeq("Wallet1"), litSeq("Wallet2")}}, A: &Pat{Empty: true}, Ops: []string{"All"}}},
+		"client2": {
+			{W: &Pat{Top: []*rnode{litSeq("Wallet1")}}, A: &Pat{Empty: true}, Ops: []string{"~Access account", "All"}},
+			{W: &Pat{Top: []*rnode{litSeq("Wallet2")}}, A: &Pat{Empty: true}, Ops: []string{"All", "~Access account"}},
+			{W: &Pat{Top: []*rnode{litSeq("Wallet1")}}, A: &Pat{Empty: true}, Ops: []string{"Access account"}}},
+	}}
+	directed4Calls := [][3]string{{"client1", "Wallet1/x", "Sign"}, {"client1", "Wallet2/x", "Sign"}, {"client1", "Wallet1/x", "Access account"},
+		{"client2", "Wallet1/x", "Access account"}, {"client2", "Wallet2/x", "Access account"}, {"client2", "Wallet1/x", "Sign"}, {"client1", "Wallet1/x", "sign"}}
 	for ci := 0; ci < nCfg; ci++ {
 		pc := genPermConfig(rng, wg, ag)
+		if ci == 3 {
+			pc = directed4
+		}
 		if ci == 0 {
 			pc = directed
 		}
@@ -235,6 +251,9 @@ func cmdPerms(args []string) int {
 				client = "client1"
 			}
 			op := allOps[rng.Intn(len(allOps))]
+			if pc == directed4 && k < len(directed4Calls) {
+				client, path, op = directed4Calls[k][0], directed4Calls[k][1], directed4Calls[k][2]
+			}
 			got := svc.Check(ctx, &checker.Credentials{Client: client}, path, op)
 			// the documented meaning, written a second time: entries in order; within a matching entry
 			// the first of none / ~op / all / op decides; no decision = refused
